@@ -36,7 +36,7 @@ impl Prop for C11 {
             .into()
     }
     fn assumptions(&self) -> Vec<String> {
-        vec!["no `__FILE__/`__LINE__ and no includes in the threaded programs (their values legitimately depend on the file split)".into()]
+        vec!["no `__FILE__/`__LINE__ (both campaigns) and no includes in the threaded programs (their values legitimately depend on the file split)".into()]
     }
     fn campaigns(&self, _ctx: &Ctx) -> Vec<Campaign> {
         vec![
@@ -47,12 +47,17 @@ impl Prop for C11 {
     fn run(&self, ctx: &Ctx, campaign: &str, t: &mut Tape, st: &mut Stats) -> Result<(), Fail> {
         st.eval();
         let mut cfg = PpCfg::full();
-        cfg.includes = false;
+        // the table campaign also follows includes (defines / undefs made inside an included file count);
+        // the threading campaign cuts a single file
+        cfg.includes = campaign == "table" && t.chance(1, 2);
         cfg.position = false;
         cfg.max_items = 10;
         let case = gen_case(ctx, t, &cfg)?;
         if campaign == "table" {
             let o = compare_with_model(ctx, "C11", case, st)?;
+            if o.model.stats.includes_entered > 0 {
+                st.class("table compared after includes");
+            }
             let text = &o.case.rendered[0].text;
             let fl_default = text.contains("=") && text.contains("`define");
             let redefine = text.contains("`undef") || text.matches("`define").count() >= 3;
